@@ -23,8 +23,9 @@ func checkC11(c *Check) {
 		sub := NewCheck("C11", c.Tier, L)
 		checkC05Calls(sub, L)
 		checkC08Calls(sub, L)
+		checkC08Annotator(sub, L) // the verdict "constant parameter" is what -O2 relies on: it must be sound
 		for _, sr := range sub.rules {
-			if sr.ID != "R5.11" && sr.ID != "R8.4" {
+			if sr.ID != "R5.11" && sr.ID != "R8.4" && sr.ID != "R8.2" && sr.ID != "R8.3" && sr.ID != "R8.3b" {
 				continue
 			}
 			for _, in := range sr.Inst {
